@@ -64,7 +64,7 @@ class Unfolder:
             out.append(z3.ForAll(list(sp.consts), app == body, patterns=[app]))
         return out
 
-    def attempt(self, pc, goal, depth, timeout_ms, with_axioms=False):
+    def attempt(self, pc, goal, depth, timeout_ms, with_axioms=False, extra=(), seed=0, mbqi=True):
         hyps = [self.to_uf(p) for p in pc]
         g = self.to_uf(goal)
         acc, seen, done = {}, set(), set()
@@ -84,32 +84,44 @@ class Unfolder:
                 break
         s = z3.Solver()
         s.set("timeout", timeout_ms)
+        if seed:
+            s.set("smt.random_seed", seed)
+            s.set("sat.random_seed", seed)
+        if not mbqi:
+            s.set("smt.mbqi", False)
         if with_axioms:
             s.set("smt.mbqi", False)
             s.set("smt.auto_config", False)
             for a in self.axioms():
                 s.add(a)
-        for h in hyps + lemmas:
+        for h in hyps + lemmas + list(extra):
             s.add(h)
         s.add(z3.Not(g))
         return s.check()
 
 
-def _discharge(ob, timeout_ms, unfolder=None, lemmas=()):
+def _discharge(ob, timeout_ms, unfolder=None, lemmas=(), twin_lemmas=()):
     t0 = time.time()
-    if lemmas:       # lemmas over specification functions (proved elsewhere, listed in the evidence) join the hypotheses
-        ob.pc = list(ob.pc) + list(lemmas)
     if unfolder is not None and not ob.expect_sat:
-        for depth in (1, 2, 3):
-            try:
-                r = unfolder.attempt(ob.pc, ob.goal, depth, min(timeout_ms, 4000))
-            except z3.Z3Exception:
+        # a small portfolio: quantifier instantiation is order-sensitive, so an attempt that gives up quickly is
+        # retried with other seeds / without MBQI (each attempt is sound on its own)
+        off = int(os.environ.get("PYVC_SEED_OFFSET", "0"))
+        for seed, mbqi in ((0 + off, True), (1 + off, False), (2 + off, True), (3 + off, False)):
+            stop = False
+            for depth in (1, 2, 3):
+                try:
+                    r = unfolder.attempt(ob.pc, ob.goal, depth, min(timeout_ms, 1500 * depth), extra=twin_lemmas,
+                                         seed=seed, mbqi=mbqi)
+                except z3.Z3Exception:
+                    stop = True
+                    break
+                if r == z3.unsat:
+                    return "proved", f"z3(unfold depth {depth})", (time.time() - t0) * 1000, None
+            if stop or (time.time() - t0) > 12:
                 break
-            if r == z3.unsat:
-                return "proved", f"z3(unfold depth {depth})", (time.time() - t0) * 1000, None
         if unfolder.specs:
             try:
-                if unfolder.attempt(ob.pc, ob.goal, 2, min(timeout_ms, 5000), with_axioms=True) == z3.unsat:
+                if unfolder.attempt(ob.pc, ob.goal, 2, min(timeout_ms, 4000), with_axioms=True, extra=twin_lemmas) == z3.unsat:
                     return "proved", "z3(definitional axioms, e-matching)", (time.time() - t0) * 1000, None
             except z3.Z3Exception:
                 pass
@@ -121,6 +133,8 @@ def _discharge(ob, timeout_ms, unfolder=None, lemmas=()):
         r = s.check()
         res = "sat-ok" if r == z3.sat else ("vacuous" if r == z3.unsat else "unknown-sat")
         return res, "z3", (time.time() - t0) * 1000, None
+    if lemmas:       # lemmas over specification functions (proved elsewhere, listed in the evidence) join the hypotheses
+        ob.pc = list(ob.pc) + list(lemmas)
     # staged hypotheses: a proof from a subset of the path condition is a proof
     from .ctx import is_light
     light = [p for p in ob.pc if is_light(p)]
@@ -143,7 +157,7 @@ def _discharge(ob, timeout_ms, unfolder=None, lemmas=()):
         s2 = z3.Solver()
         s2.set("timeout", timeout_ms)
         s2.set("smt.mbqi", False)
-        s2.set("smt.random_seed", 7)
+        s2.set("smt.random_seed", 7 + int(os.environ.get("PYVC_SEED_OFFSET", "0")))
         for p in ob.pc:
             s2.add(p)
         s2.add(z3.Not(ob.goal))
@@ -197,17 +211,21 @@ def verify_one(task):
         rec["dropped"] = sorted(set(eng.dropped))
         obs = list(ctx.obligations.values())
         unf = Unfolder(reg)
-        lemmas = []
+        lemmas, twin_lemmas = [], []
         for build in getattr(reg, "lemmas", []):
             try:
                 lem = build(reg)
                 if lem is not None:
                     lemmas.append(lem)
+                lem = build(reg, True)
+                if lem is not None:
+                    twin_lemmas.append(lem)
             except Exception:
                 pass
         rec["lemmas"] = [getattr(b, "__name__", "lemma") for b in getattr(reg, "lemmas", [])] if lemmas else []
         for ob in obs:
-            res, backend, ms, model = _discharge(ob, timeout_ms, unf, lemmas if not ob.expect_sat else ())
+            res, backend, ms, model = _discharge(ob, timeout_ms, unf, lemmas if not ob.expect_sat else (),
+                                                 twin_lemmas if not ob.expect_sat else ())
             rec["obligations"].append({"name": ob.name, "kind": ob.kind, "line": ob.line, "tags": list(ob.tags),
                                        "result": res, "backend": backend, "ms": round(ms, 1), "model": model})
         if not obs:
@@ -221,6 +239,27 @@ def verify_one(task):
         rec["traceback"] = traceback.format_exc()[-3000:]
     rec["wall_s"] = round(time.time() - t0, 2)
     return rec
+
+
+def retry_function(contract_module, qualname, wanted, rounds=3, timeout_ms=30000):
+    """Second opinion for obligations that were discharged on the unchanged tree but came back 'unknown':
+    the function is re-verified in fresh processes with other solver seeds and a longer budget. Returns the set of
+    obligation names (from `wanted`) that were discharged in some round. A refutation is never overturned."""
+    proved = set()
+    ctxm = mp.get_context("fork")
+    for k in range(1, rounds + 1):
+        os.environ["PYVC_SEED_OFFSET"] = str(10 * k)
+        try:
+            with ctxm.Pool(1, maxtasksperchild=1) as pool:
+                rec = pool.map(verify_one, [(contract_module, qualname, timeout_ms)])[0]
+        finally:
+            os.environ.pop("PYVC_SEED_OFFSET", None)
+        for o in rec["obligations"]:
+            if o["result"] == "proved":
+                proved.add(o["name"])
+        if all(w in proved for w in wanted):
+            break
+    return proved
 
 
 def verify_all(contract_module, qualnames, timeout_ms=QUICK_MS, procs=None):
